@@ -9,7 +9,7 @@ from common import Cmat, Cx, R, Rmat, cfl, fl, flmat, max_rel_err
 
 from common import wiring_pre_build as pre_build  # noqa: E402,F401
 
-LEAN_MODULES = ["PyomaVerif.Props.C01", "PyomaVerif.Props.WiringRun", "PyomaVerif.Props.C01C11", "PyomaVerif.Props.C01E2E", "PyomaVerif.Props.C01Stored", "PyomaVerif.Props.WiringCalls", "PyomaVerif.Props.C01Table", "PyomaVerif.Props.C03Table", "PyomaVerif.Props.C01TableLegacy", "PyomaVerif.Props.C01Excite"]
+LEAN_MODULES = ["PyomaVerif.Props.C01", "PyomaVerif.Props.WiringRun", "PyomaVerif.Props.C01C11", "PyomaVerif.Props.C01E2E", "PyomaVerif.Props.C01Stored", "PyomaVerif.Props.WiringCalls", "PyomaVerif.Props.C01Table", "PyomaVerif.Props.C03Table", "PyomaVerif.Props.C01TableLegacy", "PyomaVerif.Props.C01Excite", "PyomaVerif.Props.C01Args", "PyomaVerif.Mutants.C01Args"]
 THEOREMS = [
     # the exact sequence of core-routine calls of the run()/mpe() body and the exact set of parameters bound at each (regenerated call table)
     "PV.WiringCalls.C12_ssidat_run_calls",
@@ -101,9 +101,32 @@ THEOREMS = [
     "PV.C01TableLegacy.ExStep.fast_3_2",
     "PV.C01TableLegacy.ExStep.legacy_3_2",
     "PV.C01TableLegacy.ExStep.step_boundary",
+    # depth round 2 (g05): SSI_fast as ONE model function `fastSSI` (l DERIVED from the row count of U1 and br; the matrices handed
+    # to np.linalg.qr / inv FORMED by the model and compared with the recorded call arguments), the pinv arguments of the legacy
+    # routine; the subjects of the contracts QrC / PinvC of the table theorems are those arguments
+    "PV.Poles.fastLoop_spec",
+    "PV.Poles.legacyArgLoop_spec",
+    "PV.C01Args.fastSSI_args",
+    "PV.C01Args.fastSSI_get",
+    "PV.C01Args.fastQrArg_eq",
+    "PV.C01Args.fastInvArgs_get",
+    "PV.C01Args.legacyPinvArgs_get",
+    "PV.C01Args.legacyPinvArgs_step_zero",
+    "PV.C01Args.C01_e2e_cov_table_whole",
+    "PV.C01Args.C01_e2e_dat_table_whole",
+    "PV.C01Args.Ex.whole_ok",
+    "PV.C01Args.Ex.table",
+    "PV.C01Args.ExDat.table",
+    # mutants: l from the COLUMN count, inv of the TRANSPOSED block, pinv of the whole factor -- each changes an argument / a list
+    "PV.Mutants.C01Args.l_from_columns_differs",
+    "PV.Mutants.C01Args.inv_of_transpose_differs",
+    "PV.Mutants.C01Args.pinv_of_whole_factor_differs",
 ]
 RULE = (
-    "correspondence: ssi.SSI_fast (also its list-building loop with step 1..3), ssi.SSI (also as ONE model function `legacySSI`: Nch, the loop "
+    "correspondence: ssi.SSI_fast (also its list-building loop with step 1..3; also as ONE model function `fastSSI` that derives l from H.shape and br "
+    "and forms the arguments of np.linalg.qr / inv, compared with the recorded call arguments entry by entry, step 0..3, ordmax beyond the factors "
+    "incl. ValueError / LinAlgError; the arguments of np.linalg.pinv in ssi.SSI likewise, and the recorded pinv result = np.linalg.pinv(argument) "
+    "with the default cut-off), ssi.SSI (also as ONE model function `legacySSI`: Nch, the loop "
     "with step 0..3, ordmax beyond the recorded factors incl. the ValueError of a tall H; its lists fed to SSI_poles with the same step: "
     "IndexError from both for ordmax > step >= 2, also through SSIcov/SSIdat.run), ssi.ac2mp and ssi.SSI_poles as one model function "
     "(table VALUES cell by cell incl. Lambds, NaN pattern, shapes, step != 1 incl. the exception class, the matrices handed to "
